@@ -294,6 +294,7 @@ class Run:
             with env.quiet():
                 store2 = BS.BlockStore(path)
                 BS.DefaultBlockStore.instance = store2
+                self.restart_order = [x.hash() for x in store2.read_blocks_from_disk()]     # the order in which start-up sees them
                 cs = U.read_chain_from_disk()
             store2.close()
         finally:
@@ -303,6 +304,7 @@ class Run:
             if x.id() not in cs.block_by_hash:
                 try:
                     cs = cs.add_block(self.build.to_sk_block(x), x.ts)
+                    self.restart_order.append(x.id())
                     self.stat("restart_blocks_downloaded_again")
                 except Exception:
                     self.stat("restart_redelivery_refused")
